@@ -10,3 +10,4 @@ pub mod tablets;
 pub mod streams;
 pub mod murmur3;
 pub mod cqlenc;
+pub mod plan;
